@@ -332,6 +332,27 @@ pub fn ring_ff5_gcd(s: &mut Src) -> R {
     Ok(())
 }
 
+/// FF<p> for moduli near the limits of the i32 representation (BOUNDED, sampled; native only): + - * neg inv against an i128 reference.
+/// p = 65537 (products of representatives exceed i32), p = 2^31 - 1 (sums do): defect D7, repaired in f4aad45.
+pub fn ring_ff_large(s: &mut Src) -> R {
+    let (a, b, which) = (s.i32(), s.i32(), s.bool());
+    reach!();
+    macro_rules! go { ($p:literal) => {{
+        type F = FF<$p>;
+        let m = $p as i128;
+        let (x, y) = (F::new(a), F::new(b));
+        let (ra, rb) = ((a as i128).rem_euclid(m), (b as i128).rem_euclid(m));
+        ob!(*x.rep() as i128 == ra && *y.rep() as i128 == rb, "FF(large p)::new-is-the-canonical-representative");
+        ob!(*(x + y).rep() as i128 == (ra + rb).rem_euclid(m), "FF(large p)::add");
+        ob!(*(x - y).rep() as i128 == (ra - rb).rem_euclid(m), "FF(large p)::sub");
+        ob!(*(x * y).rep() as i128 == (ra * rb).rem_euclid(m), "FF(large p)::mul");
+        ob!(*(-x).rep() as i128 == (-ra).rem_euclid(m), "FF(large p)::neg");
+        if ra != 0 { let i = x.inv().unwrap(); ob!(*(x * i).rep() == 1, "FF(large p)::a*inv(a)==1"); } else { ob!(x.inv().is_none(), "FF(large p)::inv(0)-is-none"); }
+    }}; }
+    if which { go!(65537) } else { go!(2147483647) }
+    Ok(())
+}
+
 /// bounded stand-in on the real machine type: full-range dividend, divisor from a fixed list of
 /// constants (so that CBMC's divider has a constant operand).  Complete in `a`, bounded in `b`.
 macro_rules! div_round_const_harness {
@@ -606,6 +627,6 @@ crate::harness_table!(RING:
     ring_ff2p_inv [unwind 8], ring_ff3_inv [unwind 8], ring_ff5_inv [unwind 8], ring_ff7_inv [unwind 10], ring_ff46337_inv [unwind 30],
     ring_f2,
     ring_qint_addsub_i32, ring_qint_mul_i32, ring_gauss_units_i32 , ring_eisen_units_i32 [unwind 8], ring_gauss_divrem_i32, ring_eisen_divrem_i32,
-    ring_gauss_gcd [unwind 6], ring_ff5_gcd [unwind 6], ring_ratio_ops [unwind 8], ring_poly_divrem [unwind 8], ring_hpoly_ops, ring_lc_ops, ring_polybase_ops, ring_poly2_eval,
+    ring_gauss_gcd [unwind 6], ring_ff5_gcd [unwind 6], ring_ff_large, ring_ratio_ops [unwind 8], ring_poly_divrem [unwind 8], ring_hpoly_ops, ring_lc_ops, ring_polybase_ops, ring_poly2_eval,
     ring_qint_addsub_i64, ring_qint_mul_i64, ring_gauss_units_i64, ring_eisen_units_i64 [unwind 8], ring_gauss_divrem_i64, ring_eisen_divrem_i64,
 );
